@@ -384,7 +384,12 @@ func (e *Engine) shaOf(st *State, in []*Term) []*Term {
 	for i := range out {
 		out[i] = e.ts.Var(fmt.Sprintf("sha256#%d.%d", k, i), 8)
 	}
-	e.modelsUsed["sha256 on symbolic input = fresh digest, functional and injective w.r.t. all other digests on the path"] = true
+	e.modelsUsed["sha256 on symbolic input = fresh digest, functional and injective w.r.t. all other digests on the path, never the all-zero hash"] = true
+	var zs []*Term
+	for i := range out {
+		zs = append(zs, e.ts.Eq(out[i], e.ts.BV(0, 8)))
+	}
+	e.addPC(st, e.ts.Not(e.ts.And(zs...)))
 	e.shaRecord(st, in, out, true)
 	return out
 }
